@@ -1,6 +1,7 @@
 (* C10 — Stand-alone element codecs behave like their in-message counterparts: each public
    encode/decode pair of an element round-trips on its own (same lemmas as C05, from the empty
    encoder state and the whole-buffer window). *)
+From DNS Require Import Model.Dec Model.Enc Proofs.EncLimits Proofs.RelocBuf Proofs.Reloc Proofs.RelocRec Proofs.RelocTop.
 From DNS Require Import Model.Dec Model.Enc Proofs.RtPrim Proofs.RtFields Proofs.RtRecord Proofs.RtMsg Proofs.C05.
 Local Open Scope N_scope.
 
@@ -45,3 +46,217 @@ Example C10_example_Question :
   question_wf q = true /\
   exists b s, enc_Question q = Ok b /\ dec_Question b = DOk q s.
 Proof. cbv zeta. split; [vm_compute; reflexivity|]. do 2 eexists. split; [vm_compute; reflexivity|]. vm_compute. reflexivity. Qed.
+
+(* ------------------------------------------------------------------------------------------
+   relocation: a stand-alone element occupies the same octets as the first element of a message, up to the shift of pointer offsets *)
+(* C10, second clause — the octets a stand-alone element encode produces are exactly what the element
+   occupies when it is the first element of a message, up to the shift of the pointer offsets. *)
+
+
+(* Vocabulary:
+   hdr m                 the 12 header octets of message m (Proofs/EncLimits.v)
+   nthN i l              checked N-indexed access (Some octet / None when out of range)
+   free P i              position i is not one of the two octets of a pointer that starts at a position
+                         listed in P:  forall j, In j P -> i <> j /\ i <> j + 1
+   phi q, plo q          the two octets of u16b (0xC000 + q):  [phi q; plo q] = u16b (49152 + q)
+   ptr_pair d off a b i  exists q, q + d <= 16383 /\ a[i], a[i+1] = phi q, plo q /\
+                         b[i+off], b[i+off+1] = phi (q+d), plo (q+d)
+   bufrelP d P a b       lenN a = lenN b /\ (forall i, free P i -> nthN i a = nthN i b) /\
+                         (forall i, In i P -> ptr_pair d 0 a b i)
+                         "a and b are the same octets, except that each compression pointer of a, at the
+                          positions P, points d octets further in b"
+   bufrelPb              the boolean checker of bufrelP (sound: C10_bufrelPb_sound)
+   simL d lo L V m1 m2   the same with the positions L protected (inside the buffer, holding no pointer);
+                         sim = simL with L = []
+   sim d lo Vu m m       the simulation (Proofs/Reloc.v): from two encoder states related by
+                         reloc d lo P (buffers related as above from position lo on, index offsets of the
+                         second = those of the first + d, all <= 16383) either both runs of m succeed in
+                         related states, or a run that succeeds where the other does not (or both, in
+                         unrelated states) has written past octet 16384 (counted in the longer buffer) *)
+
+(* ---- questions: the SAME octets (a single name never holds a pointer) ---- *)
+Theorem C10_question_first : forall (m : dns) (q : question) (b : bytes),
+  m_qd m = [q] -> m_an m = [] -> m_ns m = [] -> m_ar m = [] ->
+  enc_Dns m = Ok b -> lenN b <= 16384 -> exists w, enc_Question q = Ok w /\ b = hdr m ++ w.
+Proof. exact question_first. Qed.
+Print Assumptions C10_question_first.
+
+(* the size hypothesis is not needed for questions *)
+Theorem C10_question_first_unbounded : forall (m : dns) (q : question) (b : bytes),
+  m_qd m = [q] -> m_an m = [] -> m_ns m = [] -> m_ar m = [] ->
+  enc_Dns m = Ok b -> exists w, enc_Question q = Ok w /\ b = hdr m ++ w.
+Proof. exact question_first_unbounded. Qed.
+Print Assumptions C10_question_first_unbounded.
+
+(* ... and any elements may follow the first question *)
+Theorem C10_question_first_general : forall (m : dns) (q : question) (qs : list question) (b : bytes),
+  m_qd m = q :: qs -> enc_Dns m = Ok b ->
+  exists w rest, enc_Question q = Ok w /\ b = hdr m ++ w ++ rest.
+Proof. exact question_first_general. Qed.
+Print Assumptions C10_question_first_general.
+
+Theorem C10_question_first_converse : forall (m : dns) (q : question) (w : bytes),
+  m_qd m = [q] -> m_an m = [] -> m_ns m = [] -> m_ar m = [] ->
+  enc_Question q = Ok w -> lenN w + 12 <= 16384 -> enc_Dns m = Ok (hdr m ++ w).
+Proof. exact question_first_converse. Qed.
+Print Assumptions C10_question_first_converse.
+
+(* ---- records: the same octets up to the pointer shift ---- *)
+Theorem C10_rr_first : forall (m : dns) (r : rr) (b : bytes),
+  m_qd m = [] -> m_an m = [r] -> m_ns m = [] -> m_ar m = [] ->
+  enc_Dns m = Ok b -> lenN b <= 16384 ->
+  exists w P, enc_RR r = Ok w /\ bufrelP 12 P w (dropN 12 b) /\ takeN 12 b = hdr m /\
+    (forall i, In i P -> exists h, nthN i w = Some h /\ 192 <= h).
+Proof. exact rr_first. Qed.
+Print Assumptions C10_rr_first.
+
+Theorem C10_rr_first_converse : forall (m : dns) (r : rr) (w : bytes),
+  m_qd m = [] -> m_an m = [r] -> m_ns m = [] -> m_ar m = [] ->
+  enc_RR r = Ok w -> lenN w + 12 <= 16384 ->
+  exists b P, enc_Dns m = Ok b /\ bufrelP 12 P w (dropN 12 b) /\ takeN 12 b = hdr m.
+Proof. exact rr_first_converse. Qed.
+Print Assumptions C10_rr_first_converse.
+
+(* more records may follow the first one *)
+Theorem C10_rr_first_general : forall (m : dns) (r : rr) (rs : list rr) (b : bytes),
+  m_qd m = [] -> m_an m = r :: rs -> enc_Dns m = Ok b -> lenN b <= 16384 ->
+  exists w w' rest P, enc_RR r = Ok w /\ b = hdr m ++ w' ++ rest /\ bufrelP 12 P w w'.
+Proof. exact rr_first_general. Qed.
+Print Assumptions C10_rr_first_general.
+
+(* any two prefixes whose lengths differ by d, not only 0 and 12; the final indexes are related too *)
+Theorem C10_reloc_any_prefix : forall (d : N) (r : rr) (s t t' : est),
+  e_idx s = [] -> e_idx t = [] -> lenN (e_buf t) = lenN (e_buf s) + d ->
+  enc_rr r t = EOk tt t' -> lenN (e_buf t') <= 16384 ->
+  exists s' w1 w2 P, enc_rr r s = EOk tt s' /\
+    e_buf s' = e_buf s ++ w1 /\ e_buf t' = e_buf t ++ w2 /\ bufrelP d P w1 w2 /\
+    e_idx t' = map (shift_entry d) (e_idx s').
+Proof. exact reloc_any_prefix_fwd. Qed.
+Print Assumptions C10_reloc_any_prefix.
+
+Theorem C10_reloc_any_prefix_converse : forall (d : N) (r : rr) (s t s' : est),
+  e_idx s = [] -> e_idx t = [] -> lenN (e_buf t) = lenN (e_buf s) + d ->
+  enc_rr r s = EOk tt s' -> lenN (e_buf s') + d <= 16384 ->
+  exists t' w1 w2 P, enc_rr r t = EOk tt t' /\
+    e_buf s' = e_buf s ++ w1 /\ e_buf t' = e_buf t ++ w2 /\ bufrelP d P w1 w2 /\
+    e_idx t' = map (shift_entry d) (e_idx s').
+Proof. exact reloc_any_prefix_bwd. Qed.
+Print Assumptions C10_reloc_any_prefix_converse.
+
+(* ---- what bufrelP says ---- *)
+Theorem C10_no_pointer_equal : forall (d : N) (a b : bytes), bufrelP d [] a b -> a = b.
+Proof. exact bufrelP_nil. Qed.
+Print Assumptions C10_no_pointer_equal.
+
+Theorem C10_pointer_fields : forall (d : N) (P : list N) (a b : bytes) (i : N), bufrelP d P a b -> In i P ->
+  exists q, q + d <= 16383 /\
+    takeN 2 (dropN i a) = u16b (49152 + q) /\ takeN 2 (dropN i b) = u16b (49152 + (q + d)).
+Proof. exact bufrelP_slices. Qed.
+Print Assumptions C10_pointer_fields.
+
+Theorem C10_bufrelPb_sound : forall (d : N) (P : list N) (a b : bytes), bufrelPb d P a b = true -> bufrelP d P a b.
+Proof. exact bufrelPb_sound. Qed.
+Print Assumptions C10_bufrelPb_sound.
+
+(* ---- the simulation itself: primitives that read offsets, then the three writers ---- *)
+(* Voff d a b  :=  b = a + d   (an offset read in the message is the stand-alone offset + d) *)
+Theorem C10_sim_get_offset : forall (d lo : N), sim d lo (Voff d) get_offset get_offset.
+Proof. exact sim_get_offset. Qed.
+Print Assumptions C10_sim_get_offset.
+
+Theorem C10_sim_elabel : forall (d lo : N) (l : label), sim d lo (Voff d) (elabel l) (elabel l).
+Proof. exact sim_elabel. Qed.
+Print Assumptions C10_sim_elabel.
+
+(* both runs find the same suffix (at offsets q and q + d) and answer the same depth *)
+Theorem C10_sim_compress : forall (d lo : N) (n : name), sim d lo (@eq (option N)) (compress n) (compress n).
+Proof. exact sim_compress. Qed.
+Print Assumptions C10_sim_compress.
+
+(* a 16-bit length slot created at li stand-alone is created at li + d in the message, and closed there *)
+Theorem C10_sim_length_slot : forall (d lo : N) (A' B' : Type) (L : list N) (W : A' -> B' -> Prop)
+    (f : N -> EM A') (g : N -> EM B'),
+  (forall li, simL d lo (li :: li + 1 :: L) W (f li) (g (li + d))) ->
+  simL d lo L W (ebind create_length_index f) (ebind create_length_index g).
+Proof. exact simL_create. Qed.
+Print Assumptions C10_sim_length_slot.
+
+Theorem C10_sim_set_length_index : forall (d lo : N) (L : list N) (li : N), In li L -> In (li + 1) L ->
+  simL d lo L Vu (set_length_index li) (set_length_index (li + d)).
+Proof. exact simL_set_length_index. Qed.
+Print Assumptions C10_sim_set_length_index.
+
+Theorem C10_sim_domain_name : forall (d lo : N) (n : name), sim d lo Vu (enc_domain_name n) (enc_domain_name n).
+Proof. exact sim_enc_domain_name. Qed.
+Print Assumptions C10_sim_domain_name.
+
+Theorem C10_sim_question : forall (d lo : N) (q : question), sim d lo Vu (enc_question q) (enc_question q).
+Proof. exact sim_enc_question. Qed.
+Print Assumptions C10_sim_question.
+
+Theorem C10_sim_rr : forall (d lo : N) (r : rr), sim d lo Vu (enc_rr r) (enc_rr r).
+Proof. exact sim_enc_rr. Qed.
+Print Assumptions C10_sim_rr.
+
+(* ---- non-vacuity ---- *)
+Definition L_www_relocation : label := [119;119;119].
+Definition L_org_relocation : label := [111;114;103].
+Definition L_ns : label := [110;115].
+Definition L_adm : label := [97;100;109].
+Definition fl : flags := {| f_qr := true; f_opcode := 0; f_aa := true; f_tc := false; f_rd := true;
+                            f_ra := true; f_ad := false; f_cd := false; f_rcode := 0 |}.
+Definition msg1 (r : rr) : dns := {| m_id := 4660; m_flags := fl; m_qd := []; m_an := [r]; m_ns := []; m_ar := [] |}.
+
+(* MX www.org -> org: the exchange name is a pointer to offset 4 stand-alone, to offset 16 in the message *)
+Definition mx : rr := {| r_type := 15; r_name := [L_www_relocation; L_org_relocation]; r_class := 1; r_ttl := 60;
+                         r_data := RFields [VN 10; VName [L_org_relocation]] |}.
+Example C10_example_mx :
+  enc_RR mx = Ok [3;119;119;119;3;111;114;103;0; 0;15; 0;1; 0;0;0;60; 0;4; 0;10; 192;4] /\
+  enc_Dns (msg1 mx) = Ok ([18;52; 133;128; 0;0; 0;1; 0;0; 0;0] ++
+                      [3;119;119;119;3;111;114;103;0; 0;15; 0;1; 0;0;0;60; 0;4; 0;10; 192;16]) /\
+  bufrelP 12 [21] [3;119;119;119;3;111;114;103;0; 0;15; 0;1; 0;0;0;60; 0;4; 0;10; 192;4]
+                  [3;119;119;119;3;111;114;103;0; 0;15; 0;1; 0;0;0;60; 0;4; 0;10; 192;16].
+Proof.
+  split; [vm_compute; reflexivity|]. split; [vm_compute; reflexivity|].
+  apply bufrelPb_sound. vm_compute. reflexivity.
+Qed.
+
+(* SOA org: two RDATA names, two pointers (to the owner at 0 -> 12, to "ns.org" at 15 -> 27) *)
+Definition soa : rr := {| r_type := 6; r_name := [L_org_relocation]; r_class := 1; r_ttl := 3600;
+  r_data := RFields [VName [L_ns; L_org_relocation]; VName [L_adm; L_ns; L_org_relocation]; VN 1; VN 2; VN 3; VN 4; VN 5] |}.
+Example C10_example_soa :
+  exists w b, enc_RR soa = Ok w /\ enc_Dns (msg1 soa) = Ok b /\
+    takeN 8 (dropN 18 w) = [192;0; 3;97;100;109; 192;15] /\
+    takeN 8 (dropN 30 b) = [192;12; 3;97;100;109; 192;27] /\
+    bufrelP 12 [18; 24] w (dropN 12 b) /\ ~ bufrelP 12 [] w (dropN 12 b).
+Proof.
+  eexists. eexists. split; [vm_compute; reflexivity|]. split; [vm_compute; reflexivity|].
+  split; [vm_compute; reflexivity|]. split; [vm_compute; reflexivity|].
+  split; [apply bufrelPb_sound; vm_compute; reflexivity|].
+  intros H. apply bufrelP_nil in H. vm_compute in H. discriminate.
+Qed.
+
+(* a question occupies the same octets *)
+Example C10_example_question :
+  let q := {| q_name := [L_www_relocation; L_org_relocation]; q_type := 1; q_class := 1 |} in
+  let m := {| m_id := 7; m_flags := fl; m_qd := [q]; m_an := []; m_ns := []; m_ar := [] |} in
+  exists w, enc_Question q = Ok w /\ enc_Dns m = Ok (hdr m ++ w).
+Proof. cbv zeta. eexists. split; vm_compute; reflexivity. Qed.
+
+(* The size hypothesis of C10_rr_first cannot be dropped.  The owner name below puts its last label
+   "org" at offset 16380 stand-alone (recorded in the compression table: <= 16383) and at offset 16392
+   in the message (not recorded): the MX exchange "org" is a 2-octet pointer stand-alone and 5 literal
+   octets in the message. *)
+Definition L_a255 : label := repeat 97 255.
+Definition L_a251 : label := repeat 97 251.
+Definition mx_far : rr := {| r_type := 15; r_name := repeat L_a255 63 ++ [L_a251; L_org_relocation]; r_class := 1; r_ttl := 60;
+                             r_data := RFields [VN 10; VName [L_org_relocation]] |}.
+Example C10_size_hypothesis_needed :
+  exists w b, enc_RR mx_far = Ok w /\ enc_Dns (msg1 mx_far) = Ok b /\
+    lenN w = 16399 /\ lenN b = 12 + 16402 /\
+    dropN 16395 w = [0;10; 255;252] /\ dropN (12 + 16395) b = [0;10; 3;111;114;103;0].
+Proof.
+  eexists. eexists. split; [vm_compute; reflexivity|]. split; [vm_compute; reflexivity|].
+  split; [vm_compute; reflexivity|]. split; [vm_compute; reflexivity|].
+  split; vm_compute; reflexivity.
+Qed.
